@@ -903,6 +903,490 @@ Definition c16_run8 (case obs : sx) : verdict :=
   | _, _ => c16_run7 case obs
   end.
 
+(* ==== which = 9: the REDIS backend (redis_limiter.go + the redis paths of limiters_map.go / throttle.go), a second
+   caller of the anchored mechanism: every limiter is a pair of inMemoryLimiters — incrementLimiter (what arrived
+   since the last sync) and totalLimiter (the global counters as of the last sync plus what passed the increment
+   limiter since) — over one redis store.  The harness runs the real Plugin (limiter_backend: redis) against a fake
+   RESP server of its own, with an injected clock, and drives redisLimiter.sync itself, so a case is a sequence:
+     item = (0 now ts size dv ((field value) ...))   an event; dv = -1 | value id (field "d" = "v<id>" / "w<id>")
+          | (1 now mode)                             every limiter syncs at clock now (mode 0: redisLimiter.sync in key
+                                                     order; mode 1: one cycle of the real limitersMap.runSync)
+          | (2 #limit-key value)                     the redis limit key is set: value = (0 n) the text n | (1 n groups)
+                                                     the JSON {"limit": n, "distribution": {...}} | (2) garbage | (3) DEL
+          | (3)                                      updateLimitsCfg + saveLimits: the limits file is observed
+          | (4)                                      save, Stop, and a new Plugin that loads the limits file (same redis)
+          | (5)                                      Stop, and a new Plugin over an EMPTY limits file: every limiter forgotten
+          | (6 now #throttle-key (now' ts size dv))  a sync during which an event of that throttle key arrives: after the
+                                                     snapshot of its limiter, before the first INCRBY is answered
+   case = (down client routing vf count interval (rule ...) (item ...)),  rule = (limit kind conds groups),
+   groups = ((percent (value id ...)) ...): the distributions of limit_distribution in index order.
+   down = 1: nothing listens on the endpoint (Start logs the failed ping, runSync waits for a reconnect for ever):
+   the limiters never sync.  vf = 1: limiter_value_field "limit" / limiter_distribution_field "distribution".
+   obs  = ((o ...) final): o = decision | dump after a sync | () | the limits file | ();  final = dump;
+   dump = ((limiter ...) (counter ...)) sorted by key, limiter = (#key #limit-key inc-limit total-limit kind
+          default-share (share ...) ((value id ...) ...) inc-ring total-ring), counter = (#throttle-key bucket-id slot n).
+   Err 77 = outside what the model decides exactly (a share that is an exact .5 tie in float64) -> BadCase.     *)
+Definition groups := list (Z * list Z).
+Definition zmem (x : Z) (l : list Z) : bool := existsb (Z.eqb x) l.
+Fixpoint nodup_ids (seen ids : list Z) : option (list Z) :=
+  match ids with
+  | [] => Some seen
+  | i :: r => if zmem i seen then None else nodup_ids (i :: seen) r
+  end.
+(* parseLimitDistribution's checks per ratio: range, non-empty values, no value listed twice *)
+Fixpoint groups_wf (seen : list Z) (gs : groups) : bool :=
+  match gs with
+  | [] => true
+  | (p, ids) :: r =>
+      (0 <=? p) && (p <=? 100) && (match ids with [] => false | _ :: _ => true end) &&
+      match nodup_ids seen ids with Some s => groups_wf s r | None => false end
+  end.
+Definition gsum (gs : groups) : Z := sumZ (map fst gs).
+Definition groups_ok (gs : groups) : bool := groups_wf [] gs && (gsum gs <=? 100).
+Inductive pres := PTie | PErr | POk (d : Z) (sh : list Z).
+Definition parse_groups (lm : Z) (gs : groups) : pres :=
+  if negb (groups_ok gs) then PErr else
+  match gs with
+  | [] => POk 0 []
+  | _ :: _ =>
+      if (lm <? 0) || (gsum gs =? 100) || existsb (fun p => (p * lm) mod 100 =? 50) ((100 - gsum gs) :: map fst gs)
+      then PTie else POk (share_of lm (100 - gsum gs)) (map (share_of lm) (map fst gs))
+  end.
+Fixpoint group_idx (gs : groups) (id i : Z) : option Z :=
+  match gs with
+  | [] => None
+  | (_, ids) :: r => if zmem id ids then Some i else group_idx r id (i + 1)
+  end.
+
+Fixpoint a_get {A} (m : list (bytes * A)) (k : bytes) : option A :=
+  match m with [] => None | (k', v) :: r => if bytes_eqb k' k then Some v else a_get r k end.
+Fixpoint a_set {A} (m : list (bytes * A)) (k : bytes) (v : A) : list (bytes * A) :=
+  match m with
+  | [] => [(k, v)]
+  | (k', v') :: r => if bytes_eqb k' k then (k, v) :: r else (k', v') :: a_set r k v
+  end.
+Definition a_del {A} (m : list (bytes * A)) (k : bytes) : list (bytes * A) :=
+  filter (fun kv => negb (bytes_eqb (fst kv) k)) m.
+Fixpoint a_insert {A} (k : bytes) (v : A) (l : list (bytes * A)) : list (bytes * A) :=
+  match l with
+  | [] => [(k, v)]
+  | (k', v') :: r => if bytes_ltb k k' then (k, v) :: l else (k', v') :: a_insert k v r
+  end.
+Definition a_sorted {A} (m : list (bytes * A)) : list (bytes * A) :=
+  fold_right (fun kv acc => a_insert (fst kv) (snd kv) acc) [] m.
+Fixpoint zinsert (x : Z) (l : list Z) : list Z :=
+  match l with [] => [x] | y :: r => if x <=? y then x :: l else y :: zinsert x r end.
+Definition zsort (l : list Z) : list Z := fold_right zinsert [] l.
+
+(* one redis limiter: the limit and distribution it currently has (rl_c: limit, default share, shares; rl_gs: which
+   value ids each distribution lists), the throttle key (redis counter prefix), the redis limit key, the two rings *)
+Record rl := { rl_c : cfg; rl_gs : groups; rl_tkey : bytes; rl_lkey : bytes; rl_inc : lim; rl_tot : lim }.
+Definition ckey := (bytes * Z * Z)%type.
+Definition ckey_eqb (a b : ckey) : bool :=
+  let '(k, i, d) := a in let '(k', i', d') := b in bytes_eqb k k' && (i =? i') && (d =? d').
+Definition ckey_ltb (a b : ckey) : bool :=
+  let '(k, i, d) := a in let '(k', i', d') := b in
+  if bytes_ltb k k' then true else if bytes_ltb k' k then false
+  else if i <? i' then true else if i' <? i then false else d <? d'.
+Definition ctrs := list (ckey * Z).
+(* INCRBY *)
+Fixpoint ctr_add (cs : ctrs) (k : ckey) (x : Z) : ctrs * Z :=
+  match cs with
+  | [] => ([(k, x)], x)
+  | (k', v) :: r => if ckey_eqb k' k then ((k, v + x) :: r, v + x)
+                    else let '(r', n) := ctr_add r k x in ((k', v) :: r', n)
+  end.
+Fixpoint c_insert (k : ckey) (v : Z) (l : ctrs) : ctrs :=
+  match l with
+  | [] => [(k, v)]
+  | (k', v') :: r => if ckey_ltb k k' then (k, v) :: l else (k', v') :: c_insert k v r
+  end.
+Definition c_sorted (m : ctrs) : ctrs := fold_right (fun kv acc => c_insert (fst kv) (snd kv) acc) [] m.
+
+Inductive kval := KInt (n : Z) | KJson (n : Z) (gs : groups) | KRaw.
+Record rst := { rs_lims : list (bytes * rl); rs_ctr : ctrs; rs_keys : list (bytes * kval) }.
+
+(* simpleBuckets.isEmpty: b == 0; distributedBuckets.isEmpty: no slot > 0 *)
+Definition row_empty (c : cfg) (row : list Z) : bool :=
+  match shares c with
+  | [] => forallb (fun v => v =? 0) row
+  | _ :: _ => forallb (fun v => v <=? 0) row
+  end.
+(* bucketsMeta.actualizeIndex *)
+Definition actualize (l : lim) (mx i : Z) : Z * bool :=
+  if maxID l =? mx then (i, true) else let a := i - (maxID l - mx) in (a, 0 <? a).
+Definition with_ring (l : lim) (r : list (list Z)) : lim := {| minID := minID l; maxID := maxID l; ring := r |}.
+Definition reset_row (l : lim) (i : Z) : res lim :=
+  row <- idx (ring l) i ;; r <- upd (ring l) i (map (fun _ => 0) row) ;; Ok (with_ring l r).
+Fixpoint set_row (b : list (list Z)) (i d : Z) (vs : list Z) : res (list (list Z)) :=
+  match vs with
+  | [] => Ok b
+  | v :: r => row <- idx b i ;; row' <- upd row d v ;; b' <- upd b i row' ;; set_row b' i (d + 1) r
+  end.
+Fixpoint push_row (k : bytes) (id d : Z) (row : list Z) (cs : ctrs) : ctrs * list Z :=
+  match row with
+  | [] => (cs, [])
+  | x :: r => let '(cs1, v) := ctr_add cs (k, id, d) x in
+              let '(cs2, vs) := push_row k id (d + 1) r cs1 in (cs2, v :: vs)
+  end.
+(* redisLimiter.isAllowed on the two rings: the total limiter is asked only when the increment limiter agrees *)
+Definition rl_allow (c : cfg) (gs : groups) (inc tot : lim) (now ts size : Z) (dv : option Z) : res (lim * lim * bool) :=
+  let dve := match dv with None => None | Some id => group_idx gs id 0 end in
+  ' (inc', b1) <- allow c inc now ts size dve ;;
+  ' (tot', b2) <- (if b1 then allow c tot now ts size dve else Ok (tot, false)) ;;
+  Ok (inc', tot', b2).
+(* an event of this limiter that arrives DURING its sync — after the snapshot, while the first INCRBY is on its way
+   (the harness fires it from the fake server): (now, ts, size, dv) *)
+Definition hook := option (Z * Z * Z * option Z).
+(* syncLocalGlobalLimiters + updateLimiterValues over the snapshot of the increment ring *)
+Fixpoint sync_rows (c : cfg) (gs : groups) (k : bytes) (mn mx i : Z) (snap : list (list Z)) (inc tot : lim) (cs : ctrs)
+                   (h : hook) (fired : option bool) : res (lim * lim * ctrs * option bool) :=
+  match snap with
+  | [] => Ok (inc, tot, cs, fired)
+  | row :: r =>
+      if row_empty c row then sync_rows c gs k mn mx (i + 1) r inc tot cs h fired else
+      let '(cs1, vs) := push_row k (mn + i) 0 row cs in
+      ' (inc0, tot0, fired1) <- (match h with
+                                | Some (en, et, ez, edv) =>
+                                    ' (a, b, d) <- rl_allow c gs inc tot en et ez edv ;; Ok (a, b, Some d)
+                                | None => Ok (inc, tot, fired)
+                                end) ;;
+      let '(ai, oki) := actualize inc0 mx i in
+      inc1 <- (if oki then reset_row inc0 ai else Ok inc0) ;;
+      let '(at_, okt) := actualize tot0 mx i in
+      tot1 <- (if okt then (b <- set_row (ring tot0) at_ 0 vs ;; Ok (with_ring tot0 b)) else Ok tot0) ;;
+      sync_rows c gs k mn mx (i + 1) r inc1 tot1 cs1 None fired1
+  end.
+(* updateKeyLimit: what the limit key decodes to (None: absent, or an error that is only logged) *)
+Definition key_update (vf : bool) (v : kval) : option (Z * groups) :=
+  match vf, v with
+  | false, KInt n => Some (n, [])
+  | true, KJson n gs => Some (n, gs)
+  | _, _ => None
+  end.
+Definition with_limit (c : cfg) (n : Z) : cfg :=
+  {| count := count c; interval := interval c; size_kind := size_kind c; limit := n; deflimit := deflimit c; shares := shares c |}.
+Definition with_distr (c : cfg) (d : Z) (sh : list Z) : cfg :=
+  {| count := count c; interval := interval c; size_kind := size_kind c; limit := limit c; deflimit := d; shares := sh |}.
+(* updateLimit + updateDistribution on both limiters *)
+Definition apply_update (r : rl) (n : Z) (ngs : groups) : res rl :=
+  let c1 := with_limit (rl_c r) n in
+  let keep := {| rl_c := c1; rl_gs := rl_gs r; rl_tkey := rl_tkey r; rl_lkey := rl_lkey r; rl_inc := rl_inc r; rl_tot := rl_tot r |} in
+  match ngs, rl_gs r with
+  | [], [] => Ok keep
+  | _, _ =>
+      match parse_groups n ngs with
+      | PErr => Ok keep
+      | PTie => Err 77
+      | POk d sh =>
+          let c2 := with_distr c1 d sh in
+          if (length sh =? length (shares c1))%nat
+          then Ok {| rl_c := c2; rl_gs := ngs; rl_tkey := rl_tkey r; rl_lkey := rl_lkey r; rl_inc := rl_inc r; rl_tot := rl_tot r |}
+          else Ok {| rl_c := c2; rl_gs := ngs; rl_tkey := rl_tkey r; rl_lkey := rl_lkey r; rl_inc := lim0 c2; rl_tot := lim0 c2 |}
+      end
+  end.
+(* redisLimiter.sync at injected clock now (the event time of its rebuild is the REAL time.Now(): FAR) *)
+Definition sync_one (vf : bool) (now : Z) (keys : list (bytes * kval)) (cs : ctrs) (r : rl) (h : hook)
+  : res (rl * ctrs * option bool) :=
+  let c := rl_c r in
+  ' (inc1, mx) <- rebuild c now FAR (rl_inc r) ;;
+  ' (tot1, _) <- rebuild c now FAR (rl_tot r) ;;
+  ' (inc2, tot2, cs2, fired) <- sync_rows c (rl_gs r) (rl_tkey r) (minID tot1) mx 0 (ring inc1) inc1 tot1 cs h None ;;
+  let r2 := {| rl_c := c; rl_gs := rl_gs r; rl_tkey := rl_tkey r; rl_lkey := rl_lkey r; rl_inc := inc2; rl_tot := tot2 |} in
+  match a_get keys (rl_lkey r) with
+  | None => Ok (r2, cs2, fired)
+  | Some v => match key_update vf v with
+              | None => Ok (r2, cs2, fired)
+              | Some (n, ngs) => r3 <- apply_update r2 n ngs ;; Ok (r3, cs2, fired)
+              end
+  end.
+(* hk = (throttle key, event): the event belongs to the limiter of that throttle key (one rule: there is one) *)
+Fixpoint sync_all (vf : bool) (now : Z) (keys : list (bytes * kval)) (cs : ctrs) (ls : list (bytes * rl))
+                  (hk : option (bytes * (Z * Z * Z * option Z))) (fired : option bool)
+  : res (list (bytes * rl) * ctrs * option bool) :=
+  match ls with
+  | [] => Ok ([], cs, fired)
+  | (k, r) :: rest =>
+      let h := match hk with Some (t, e) => if bytes_eqb t (rl_tkey r) then Some e else None | None => None end in
+      ' (r', cs1, f1) <- sync_one vf now keys cs r h ;;
+      (* the event has moved the injected clock: the limiters that sync after it read the event's clock *)
+      let now' := match f1, hk with Some _, Some (_, (en, _, _, _)) => en | _, _ => now end in
+      ' (rest', cs2, f2) <- sync_all vf now' keys cs1 rest (match f1 with Some _ => None | None => hk end)
+                                     (match f1 with Some b => Some b | None => fired end) ;;
+      Ok ((k, r') :: rest', cs2, f2)
+  end.
+
+Record pcfg9 := { q_vf : bool; q_count : Z; q_interval : Z; q_rules : list (rule * groups) }.
+Definition LKF : bytes := [108; 107]%N.                                   (* limiter_key_field "lk" *)
+Definition default_lkey (tk : bytes) : bytes :=
+  ([80; 95; 107; 95] ++ tk ++ [95; 108; 105; 109; 105; 116])%N.           (* "P_k_" tk "_limit", P = the pipeline name *)
+Definition new_rl (p : pcfg9) (r : rule) (gs : groups) (tk ov : bytes) : res rl :=
+  match parse_groups (r_limit r) gs with
+  | POk d sh =>
+      let c := {| count := q_count p; interval := q_interval p; size_kind := r_size r; limit := r_limit r;
+                  deflimit := d; shares := sh |} in
+      Ok {| rl_c := c; rl_gs := gs; rl_tkey := tk; rl_lkey := match ov with [] => default_lkey tk | _ => ov end;
+            rl_inc := lim0 c; rl_tot := lim0 c |}
+  | _ => Err 77
+  end.
+(* Plugin.isAllowed + getOrAdd + redisLimiter.isAllowed *)
+Definition ev9 (p : pcfg9) (s : rst) (now ts size : Z) (dv : option Z) (f : fields) : res (rst * bool) :=
+  match first_match (map fst (q_rules p)) 0 f with
+  | None => Ok (s, true)
+  | Some (n, r) =>
+      let tk := throttle_key f in
+      let key := lim_key n tk in
+      r0 <- (match a_get (rs_lims s) key with
+             | Some x => Ok x
+             | None => new_rl p r (nth (Z.to_nat n) (map snd (q_rules p)) []) tk (lookup LKF f)
+             end) ;;
+      ' (inc', tot', b2) <- rl_allow (rl_c r0) (rl_gs r0) (rl_inc r0) (rl_tot r0) now ts size dv ;;
+      let r1 := {| rl_c := rl_c r0; rl_gs := rl_gs r0; rl_tkey := rl_tkey r0; rl_lkey := rl_lkey r0; rl_inc := inc'; rl_tot := tot' |} in
+      Ok ({| rs_lims := a_set (rs_lims s) key r1; rs_ctr := rs_ctr s; rs_keys := rs_keys s |}, b2)
+  end.
+
+(* limitDistributions.getCfg groups the values by ratio: distributions with equal ratios come out as ONE ratio.  The
+   harness canonicalises the file (ratios ascending, values sorted) before it is observed and before it is loaded. *)
+Fixpoint g_insert (p : Z) (ids : list Z) (gs : groups) : groups :=
+  match gs with
+  | [] => [(p, ids)]
+  | (q, js) :: r => if p <? q then (p, ids) :: gs
+                    else if p =? q then (q, fold_right zinsert js ids) :: r
+                    else (q, js) :: g_insert p ids r
+  end.
+Definition g_canon (gs : groups) : groups := fold_right (fun g acc => g_insert (fst g) (zsort (snd g)) acc) [] gs.
+(* parseLimits: a limiter per entry of the file, with the saved limit, kind, distribution and limit key; fresh rings *)
+Definition reload (r : rl) : res rl :=
+  let gs := g_canon (rl_gs r) in
+  match parse_groups (limit (rl_c r)) gs with
+  | POk d sh =>
+      let c := with_distr (rl_c r) d sh in
+      Ok {| rl_c := c; rl_gs := gs; rl_tkey := rl_tkey r; rl_lkey := rl_lkey r; rl_inc := lim0 c; rl_tot := lim0 c |}
+  | _ => Err 77
+  end.
+Fixpoint reload_all (ls : list (bytes * rl)) : res (list (bytes * rl)) :=
+  match ls with
+  | [] => Ok []
+  | (k, r) :: rest => r' <- reload r ;; rest' <- reload_all rest ;; Ok ((k, r') :: rest')
+  end.
+
+Definition sx_of_groups_ids (gs : groups) : sx := SL (map (fun g => SL (map SZ (zsort (snd g)))) gs).
+Definition sx_of_rl (kr : bytes * rl) : sx :=
+  let '(k, r) := kr in let c := rl_c r in
+  SL [SB k; SB (rl_lkey r); SZ (limit c); SZ (limit c); SZ (if size_kind c then 1 else 0); SZ (deflimit c);
+      SL (map SZ (shares c)); sx_of_groups_ids (rl_gs r); sx_of_lim (rl_inc r); sx_of_lim (rl_tot r)].
+Definition sx_of_ctr (kv : ckey * Z) : sx := let '((k, i, d), v) := kv in SL [SB k; SZ i; SZ d; SZ v].
+Definition dump9 (s : rst) : sx :=
+  SL [SL (map sx_of_rl (a_sorted (rs_lims s))); SL (map sx_of_ctr (c_sorted (rs_ctr s)))].
+Definition sx_of_saved (kr : bytes * rl) : sx :=
+  let '(k, r) := kr in let c := rl_c r in
+  SL [SB k; SB (rl_lkey r); SZ (if size_kind c then 1 else 0); SZ (limit c);
+      SL (map (fun g => SL [SZ (fst g); SL (map SZ (snd g))]) (g_canon (rl_gs r)))].
+Definition file9 (s : rst) : sx := SL (map sx_of_saved (a_sorted (rs_lims s))).
+
+Inductive item9 :=
+| I9Ev (now ts size : Z) (dv : option Z) (f : fields)
+| I9Sync (now mode : Z)
+| I9Set (k : bytes) (v : option kval)
+| I9Save
+| I9Restart
+| I9RestartEmpty
+| I9SyncEv (now : Z) (t : bytes) (en et ez : Z) (edv : option Z).
+
+(* the observations made before a panic (newest first), and whether the run ended in one *)
+Fixpoint run9 (p : pcfg9) (s : rst) (its : list item9) (acc : list sx) : list sx * res rst :=
+  match its with
+  | [] => (acc, Ok s)
+  | it :: rest =>
+      match it with
+      | I9Ev now ts size dv f =>
+          match ev9 p s now ts size dv f with
+          | Ok (s', b) => run9 p s' rest (of_bool b :: acc)
+          | Err e => (acc, Err e)
+          | Panic x => (acc, Panic x)
+          end
+      | I9Sync now mode =>
+          (* mode 1: the real runSync is left running for at least two cycles; from the second on a cycle changes
+             nothing (the first may recreate rings, which the second initialises from the clock) *)
+          match (' (ls1, cs1, _) <- sync_all (q_vf p) now (rs_keys s) (rs_ctr s) (a_sorted (rs_lims s)) None None ;;
+                 if mode =? 1 then sync_all (q_vf p) now (rs_keys s) cs1 ls1 None None else Ok (ls1, cs1, None)) with
+          | Ok (ls, cs, _) =>
+              let s' := {| rs_lims := ls; rs_ctr := cs; rs_keys := rs_keys s |} in
+              run9 p s' rest (dump9 s' :: acc)
+          | Err e => (acc, Err e)
+          | Panic x => (acc, Panic x)
+          end
+      | I9SyncEv now t en et ez edv =>
+          match sync_all (q_vf p) now (rs_keys s) (rs_ctr s) (a_sorted (rs_lims s)) (Some (t, (en, et, ez, edv))) None with
+          | Ok (ls, cs, fired) =>
+              let s' := {| rs_lims := ls; rs_ctr := cs; rs_keys := rs_keys s |} in
+              run9 p s' rest (SL [match fired with Some b => of_bool b | None => SL [] end; dump9 s'] :: acc)
+          | Err e => (acc, Err e)
+          | Panic x => (acc, Panic x)
+          end
+      | I9Set k v =>
+          let ks := match v with Some x => a_set (rs_keys s) k x | None => a_del (rs_keys s) k end in
+          run9 p {| rs_lims := rs_lims s; rs_ctr := rs_ctr s; rs_keys := ks |} rest (SL [] :: acc)
+      | I9Save => run9 p s rest (file9 s :: acc)
+      | I9Restart =>
+          match reload_all (rs_lims s) with
+          | Ok ls => run9 p {| rs_lims := ls; rs_ctr := rs_ctr s; rs_keys := rs_keys s |} rest (SL [] :: acc)
+          | Err e => (acc, Err e)
+          | Panic x => (acc, Panic x)
+          end
+      | I9RestartEmpty =>
+          run9 p {| rs_lims := []; rs_ctr := rs_ctr s; rs_keys := rs_keys s |} rest (SL [] :: acc)
+      end
+  end.
+
+Definition group_of_sx (s : sx) : option (Z * list Z) :=
+  match s with
+  | SL [SZ p; ids] => match as_list as_Z ids with Some l => Some (p, l) | None => None end
+  | _ => None
+  end.
+Definition rule9_of_sx (s : sx) : option (rule * groups) :=
+  match s with
+  | SL [SZ lm; SZ kd; cs; gs] =>
+      match as_list kv_of_sx cs, as_list group_of_sx gs with
+      | Some conds, Some g => Some ({| r_conds := conds; r_limit := lm; r_size := negb (kd =? 0) |}, g)
+      | _, _ => None
+      end
+  | _ => None
+  end.
+Definition kval_of_sx (s : sx) : option (option kval) :=
+  match s with
+  | SL [SZ 0; SZ n] => Some (Some (KInt n))
+  | SL [SZ 1; SZ n; gs] => match as_list group_of_sx gs with Some g => Some (Some (KJson n g)) | None => None end
+  | SL [SZ 2] => Some (Some KRaw)
+  | SL [SZ 3] => Some None
+  | _ => None
+  end.
+Definition item9_of_sx (s : sx) : option item9 :=
+  match s with
+  | SL [SZ 0; SZ n; SZ t; SZ z; SZ d; fs] =>
+      match as_list kv_of_sx fs with
+      | Some f => if (-1 <=? d) && (0 <=? z) then Some (I9Ev n t z (dv_of d) f) else None
+      | None => None
+      end
+  | SL [SZ 1; SZ n; SZ m] => if (m =? 0) || (m =? 1) then Some (I9Sync n m) else None
+  | SL [SZ 2; SB k; v] => match kval_of_sx v with Some kv => Some (I9Set k kv) | None => None end
+  | SL [SZ 3] => Some I9Save
+  | SL [SZ 4] => Some I9Restart
+  | SL [SZ 5] => Some I9RestartEmpty
+  | SL [SZ 6; SZ n; SB t; SL [SZ en; SZ et; SZ ez; SZ d]] =>
+      if (-1 <=? d) && (0 <=? ez) && (n <=? en) && negb (bytes_eqb t []) then Some (I9SyncEv n t en et ez (dv_of d)) else None
+  | _ => None
+  end.
+Definition item9_clock (it : item9) : option Z :=
+  match it with I9Ev n _ _ _ _ => Some n | I9Sync n _ => Some n | I9SyncEv _ _ en _ _ _ => Some en | _ => None end.
+(* the harness's discipline: injected clocks stay below the real clock (see which = 4); a dead endpoint never syncs;
+   runSync (mode 1) visits the limiters in map order, so it is used only when no two limiters share redis counters
+   (one rule: a limiter per throttle key); the cluster client needs a cluster: only with a dead endpoint *)
+Fixpoint clocks_mono (last : Z) (its : list item9) : bool :=
+  match its with
+  | [] => true
+  | I9SyncEv n _ en _ _ _ :: r => (last <=? n) && (n <=? en) && clocks_mono en r
+  | it :: r => match item9_clock it with
+               | Some n => (last <=? n) && clocks_mono n r
+               | None => clocks_mono last r
+               end
+  end.
+(* a panic of sync in a worker goroutine of runSync would take the harness down: mode 1 only under a clock that never
+   steps back (then the two rings of a limiter are rebuilt to the same window and sync does not panic) *)
+Definition items9_ok (down : bool) (nrules : nat) (its : list item9) : bool :=
+  forallb (fun it =>
+             match item9_clock it with Some n => (0 <=? n) && (n <? 1500000000000000000) | None => true end &&
+             match it with
+             | I9Sync _ m => negb down && ((m =? 0) || ((nrules =? 1)%nat && clocks_mono 0 its))
+             | I9SyncEv n _ _ _ _ _ => negb down && (nrules =? 1)%nat && (0 <=? n)
+             | I9Set _ _ => negb down
+             | _ => true
+             end) its.
+Definition case9 (s : sx) : option (pcfg9 * list item9) :=
+  match s with
+  | SL [SZ down; SZ client; SZ routing; SZ vf; SZ cnt; SZ itv; rs; its] =>
+      match as_list rule9_of_sx rs, as_list item9_of_sx its with
+      | Some rules, Some items =>
+          if (0 <=? down) && (down <=? 1) && (0 <=? client) && (client <=? 2) && ((client <? 2) || (down =? 1)) &&
+             (0 <=? routing) && (routing <=? 2) && (0 <=? vf) && (vf <=? 1) &&
+             (1 <=? cnt) && (1 <=? itv) && (itv <=? 100000000000000000) &&
+             (1 <=? len rules) && (len rules <=? 100) &&
+             forallb (fun rg => groups_ok (snd rg) && forallb (fun g => 1 <=? fst g) (snd rg)) rules &&
+             (match last rules ({| r_conds := [(KEY, KEY)]; r_limit := 0; r_size := false |}, []) with
+              | (r, _) => match r_conds r with [] => true | _ => false end end) &&
+             items9_ok (down =? 1) (length rules) items
+          then Some ({| q_vf := (vf =? 1); q_count := cnt; q_interval := itv; q_rules := rules |}, items) else None
+      | _, _ => None
+      end
+  | _ => None
+  end.
+
+(* the property's predicate where it transfers to the redis backend: ONE process, every sync between two events (the
+   harness's discipline), no distribution, the limit never changed through redis, no restart, a clock that does not
+   step back.  Then totalLimiter = the never-reset total whenever the increment limiter lets an event through, so
+   every key's decisions are those of the reference semantics (c16_pred1, as for the in-memory backend).
+   (With a distribution the two limiters attribute stolen events differently and the sum of the shares can be
+   exceeded across syncs: model = code, outside the property, which is stated for the in-memory backend.)   *)
+Fixpoint evs9 (its : list item9) (os : list sx) : option (list pev * list sx) :=
+  match its, os with
+  | [], [] => Some ([], [])
+  | it :: r, o :: os' =>
+      match evs9 r os' with
+      | Some (es, ds) =>
+          match it with
+          | I9Ev n t z _ f => Some ({| e_now := n; e_ts := t; e_size := z; e_fields := f |} :: es, o :: ds)
+          | _ => Some (es, ds)
+          end
+      | None => None
+      end
+  | _, _ => None
+  end.
+Definition c16_pred9 (p : pcfg9) (its : list item9) (obs : sx) : bool :=
+  match q_rules p with
+  | [(r, [])] =>
+      if forallb (fun it => match it with I9Set _ _ | I9Restart | I9RestartEmpty | I9SyncEv _ _ _ _ _ _ => false | _ => true end) its &&
+         clocks_mono (q_count p * q_interval p) its
+      then match obs with
+           | SL [SL os; _] =>
+               match evs9 its os with
+               | Some (es, ds) =>
+                   c16_pred1 {| p_count := q_count p; p_interval := q_interval p; p_rules := [r] |} es (SL [SL ds; SL []])
+               | None => false
+               end
+           | _ => false
+           end
+      else true
+  | _ => true
+  end.
+Definition c16_run9 (case obs : sx) : verdict :=
+  match case9 case with
+  | None => BadCase
+  | Some (p, its) =>
+      match run9 p {| rs_lims := []; rs_ctr := []; rs_keys := [] |} its [] with
+      | (_, Err _) => BadCase
+      | (acc, Ok s) => verdict_of (SL [SL (rev_append acc []); SL [SZ 0; dump9 s]]) obs (c16_pred9 p its obs)
+      | (acc, Panic _) => verdict_of (SL [SL (rev_append acc []); SL [SZ 2]]) obs (c16_pred9 p its obs)
+      end
+  end.
+
+(* which = 10  as which = 4, but the instances >= 1 are configured with time_field "" (Plugin.isAllowed takes
+   time.Now(), the REAL clock, for every event whatever its time field says) and with limiter_key_field "lk" (a redis
+   option that must not change anything under the in-memory backend).                                          *)
+Definition c16_run10 (case obs : sx) : verdict :=
+  match case4 case with
+  | None => BadCase
+  | Some (p, es) =>
+      let es' := map (fun e => if m_inst e =? 0 then e else
+                               {| m_inst := m_inst e; m_now := m_now e; m_ts := TsNow; m_size := m_size e; m_fields := m_fields e |}) es in
+      match case with
+      | SL [SZ ninst; _; SZ itv; _; _] =>
+          if mevs_ok ninst itv None es'
+          then verdict_of (sx_of_prun (prun p [] (map pev_code es'))) obs (c16_pred1 p (map pev_true es') obs)
+          else BadCase
+      | _ => BadCase
+      end
+  end.
+
 Definition c16_entry (which : Z) (case obs : sx) : verdict :=
   match which with
   | 0 => c16_run0 case obs
@@ -913,5 +1397,7 @@ Definition c16_entry (which : Z) (case obs : sx) : verdict :=
   | 6 => c16_run6 case obs
   | 7 => c16_run7 case obs
   | 8 => c16_run8 case obs
+  | 9 => c16_run9 case obs
+  | 10 => c16_run10 case obs
   | _ => c16_run2 case obs
   end.
